@@ -525,6 +525,41 @@ fn catalog_row_limit(rep: &mut Report) {
     let _ = ok;
 }
 
+/// The same for `_Validation` (one row per column): padded to one row below the limit with rows for 256 x 256
+/// (table, column) name pairs, removed again before the package is saved.
+fn validation_row_limit(rep: &mut Report) {
+    const L: usize = 65_536;
+    let (limit, mode) = ("catalog-rows-65536", "validation-rows");
+    let mut b = Bench::new();
+    let base = b.pkg.as_mut().unwrap().select_rows(msi::Select::table("_Validation")).map(|r| r.count()).unwrap_or(0);
+    let pad: Vec<Vec<msi::Value>> = (0..L - 1 - base)
+        .map(|i| {
+            let mut row = vec![msi::Value::Str(format!("F{}", i / 256)), msi::Value::Str(format!("P{}", i % 256)), msi::Value::from("Y")];
+            row.extend(std::iter::repeat(msi::Value::Null).take(7));
+            row
+        })
+        .collect();
+    let mut ok = expect(rep, limit, mode, "pad _Validation to L-1 rows", b.step_opts("insert of padding rows into _Validation", true, false, move |p| p.insert_rows(msi::Insert::into("_Validation").rows(pad))), Some(Outcome::Ok));
+    let cols = |n: usize| -> Vec<msi::Column> { (0..n).map(|i| if i == 0 { msi::Column::build("K").primary_key().int16() } else { msi::Column::build(format!("C{}", i)).nullable().int16() }).collect() };
+    ok &= ok && expect(rep, limit, mode, "table with 2 columns (1 row free)", b.step_opts("create_table needing 2 validation rows with 1 free", false, false, |p| p.create_table("Val2", cols(2))), Some(Outcome::Err));
+    ok &= ok && expect(rep, limit, mode, "table with 1 column (to L)", b.step_opts("create_table needing the last validation row", false, false, |p| p.create_table("Val1", cols(1))), Some(Outcome::Ok));
+    ok &= ok && expect(rep, limit, mode, "one more table", b.step_opts("create_table at the validation row limit", false, false, |p| p.create_table("Val1b", cols(1))), Some(Outcome::Err));
+    if ok {
+        let has = b.pkg.as_ref().unwrap().has_table("Val2") || b.pkg.as_ref().unwrap().has_table("Val1b");
+        if has {
+            rep.violation(
+                format!("{}/{}/{}/err-changed-package", PROP.with(|p| p.get()), limit, mode),
+                format!("[{} / {}] a table whose creation was refused at the _Validation row limit is reported by has_table", limit, mode),
+                json!({"kind": "capacity", "limit": limit, "mode": mode, "step": "has_table of refused tables"}),
+            );
+            ok = false;
+        }
+    }
+    let unpad = |p: &mut Pkg| p.delete_rows(msi::Delete::from("_Validation").with(msi::Expr::col("Column").ge(msi::Expr::string("P0")).and(msi::Expr::col("Column").le(msi::Expr::string("P99999"))).and(msi::Expr::col("Table").ge(msi::Expr::string("F0"))).and(msi::Expr::col("Table").le(msi::Expr::string("F99999")))));
+    ok &= ok && expect(rep, limit, mode, "remove the padding, save, reopen", b.step("delete of the padding rows", false, unpad), Some(Outcome::Ok));
+    let _ = ok;
+}
+
 fn name_limits(rep: &mut Report) {
     let mut b = Bench::new();
     let kcols = || vec![msi::Column::build("K").primary_key().int16()];
@@ -582,6 +617,7 @@ fn name_limits(rep: &mut Report) {
 pub fn which_of(limit: Option<&str>, mode: Option<&str>) -> usize {
     match (limit, mode) {
         (Some("rows-65536"), _) => 0,
+        (Some("catalog-rows-65536"), Some("validation-rows")) => 7,
         (Some("catalog-rows-65536"), _) => 5,
         (_, Some("one-batch")) => 1,
         (_, Some("create-table-at-limit")) => 2,
@@ -602,6 +638,7 @@ pub fn capacity_for(prop: &'static str, which: usize, rep: &mut Report) {
         3 => pool_limit(rep, "shared-strings-over-sessions"),
         6 => pool_limit(rep, "existing-string-after-a-freed-entry"),
         4 => pool_limit(rep, "reference-count-overflow-at-full-pool"),
+        7 => validation_row_limit(rep),
         _ => catalog_row_limit(rep),
     }
     PROP.with(|p| p.set("C20"));
@@ -622,6 +659,7 @@ pub fn run(ctx: &Ctx) -> Report {
     jobs.push(("pool-65535", "existing-string-after-a-freed-entry"));
     jobs.push(("pool-65535", "reference-count-overflow-at-full-pool"));
     jobs.push(("catalog-rows-65536", "create-table"));
+    jobs.push(("catalog-rows-65536", "validation-rows"));
     if let Some((l, m)) = &replay_only {
         jobs.retain(|(jl, jm)| (jl == l || (*jl == "names" && (l == "name-31-units" || l == "table-name" || l == "column-name"))) && (jm == m || *jl == "names" || *jl == "columns-32"));
     }
@@ -636,6 +674,7 @@ pub fn run(ctx: &Ctx) -> Report {
                 "columns-32" => columns_limit(&mut rep),
                 "names" => name_limits(&mut rep),
                 "rows-65536" => row_limit(&mut rep, mode),
+                "catalog-rows-65536" if *mode == "validation-rows" => validation_row_limit(&mut rep),
                 "catalog-rows-65536" => catalog_row_limit(&mut rep),
                 _ => pool_limit(&mut rep, mode),
             }
